@@ -73,6 +73,9 @@ def record(desper, K, seed, n_traces, n_calls):
                 adders = [c for c in free if 'on_add' in K['Decl'][c]]
                 if adders and 'add' in acts:
                     cands += [('AddSelfRemoving', (rnd.choice(ids), rnd.choice(adders)))] * 2
+                removable = [(e, c) for c, e in attached.items() if 'on_remove' in K['Decl'][c]]
+                if removable and 'remove' in acts:
+                    cands += [('RemoveDisabling', rnd.choice(removable))]
                 if adders and 'create' in acts:
                     c = rnd.choice(adders)
                     ds = [d for d in free if d != c and K['TypeOf'][d] != K['TypeOf'][c]]
